@@ -292,6 +292,49 @@ def r17d(ctx):
         raise AnalysisError("R17d: strip loops not found")
 
 
+def r17i(ctx):
+    """The width a row can be cut to counts every cell that holds something.
+
+    optimize_width() takes the largest `minimized_width()` of the rows as the new table width and trims the column declarations to it;
+    force_width() then shortens only rows whose last cell is empty.  minimized_width() must therefore count the last run of repeated cells
+    once only when that last cell *is* empty — with the same test force_width uses — and in full otherwise; counted short, a row that ends
+    in repeated values stays wider than the columns declared for it (and a later strip cuts values).  Rule: in Row.minimized_width the
+    list of run lengths is summed whole; an element of it is overwritten, or part of it left out, only under a positive is_empty test of
+    the last cell.
+    """
+    repo = ctx.repo
+    ctx.rule("R17i", "Row.minimized_width sums every run of cells; the last run is reduced to one only when the last cell tests empty", floor=1)
+    f = repo.func("Row.minimized_width")
+    runs = [a.targets[0].id for a in walk_no_nested(f.node) if isinstance(a, ast.Assign) and isinstance(a.targets[0], ast.Name) and isinstance(a.value, ast.ListComp)]
+    if not runs:
+        raise AnalysisError("R17i: list of run lengths not found in Row.minimized_width")
+    rv = runs[0]
+    bad = []
+
+    def guarded_by_empty(n_):
+        return any(pol and any(isinstance(x, ast.Call) and call_name(x) == "is_empty" for x in ast.walk(t)) for t, pol in structural_guards(n_, stop=f.node))
+
+    for st in walk_no_nested(f.node):
+        # stores into the list
+        if isinstance(st, (ast.Assign, ast.AugAssign)):
+            tg = st.targets if isinstance(st, ast.Assign) else [st.target]
+            if any(isinstance(t, ast.Subscript) and isinstance(t.value, ast.Name) and t.value.id == rv for t in tg) and not guarded_by_empty(st):
+                bad.append((st, "overwrites a run length without having tested the last cell empty"))
+        if isinstance(st, ast.Call) and isinstance(st.func, ast.Attribute) and isinstance(st.func.value, ast.Name) and st.func.value.id == rv and st.func.attr in ("pop", "remove", "clear") \
+                and not guarded_by_empty(st):
+            bad.append((st, "drops a run length without having tested the last cell empty"))
+        if isinstance(st, ast.Subscript) and isinstance(st.value, ast.Name) and st.value.id == rv and isinstance(st.slice, ast.Slice) and isinstance(st.ctx, ast.Load) and not guarded_by_empty(st):
+            bad.append((st, "leaves part of the runs out of the sum without having tested the last cell empty"))
+    sums = [c for c in walk_no_nested(f.node) if isinstance(c, ast.Call) and call_name(c) == "sum" and c.args and isinstance(c.args[0], ast.Name) and c.args[0].id == rv]
+    if not sums and not bad:
+        bad.append((f.node, "does not sum the run lengths"))
+    ctx.instance("R17i", f"{f.file}:{f.ident}", "sum of all runs; last run reduced only when the last cell is empty", ok=not bad, nontrivial=True, line=f.node.lineno)
+    for n_, why in bad[:2]:
+        ctx.report("R17i", f, n_, f"Row.minimized_width {why.split(' without')[0]}: {norm(n_, 40)}",
+                   f"Row.minimized_width {why} (`{norm(n_, 50)}`): a row ending in a run of repeated cells that hold a value is measured shorter than it is, optimize_width trims the column "
+                   f"declarations to that width and force_width leaves the row alone — the row is wider than the declared columns")
+
+
 def r17g(ctx):
     """Emptiness drives every strip: a cell that has a value, children or is part of a span is never empty, in both modes."""
     repo = ctx.repo
@@ -498,6 +541,7 @@ def run(ctx):
     r17f(ctx)
     r17g(ctx)
     r17h(ctx)
+    r17i(ctx)
     # span and area operations write back through Table.set_cells / set_row: a row copy that still carries a repeat count is written N times
     # (the one-row-only obligation R01a of C01 is a necessary condition here too)
     from .c01 import r01a
@@ -513,6 +557,13 @@ from ..selftest import Seed, unparse_seed  # noqa: E402
 _T = "src/odfdo/table.py"
 _R = "src/odfdo/row.py"
 SEEDS = [
+    Seed("minimized_width always counts the last run once", "fault", _R,
+         "            cell = self.last_cell()\n            if cell is not None and cell.is_empty(aggressive=True):\n                repeated[-1] = 1\n            min_width = sum(repeated)",
+         "            min_width = sum(repeated[:-1]) + 1", "R17i"),
+    Seed("minimized_width reduces the last run without the test", "fault", _R,
+         "            if cell is not None and cell.is_empty(aggressive=True):\n                repeated[-1] = 1\n", "            repeated[-1] = 1\n", "R17i"),
+    Seed("minimized_width tests emptiness through a local", "neutral", _R,
+         "            if cell is not None and cell.is_empty(aggressive=True):\n                repeated[-1] = 1\n", "            blank = cell is not None and cell.is_empty(aggressive=True)\n            if cell is not None and cell.is_empty(aggressive=True) and blank:\n                repeated[-1] = 1\n"),
     Seed("import_from_csv splits lines without keeping their ends", "fault", _T, '    data = content.splitlines(True)\n', '    data = content.splitlines()\n', "R17f"),
     Seed("import_from_csv normalises CRLF before reading", "fault", _T, '    data = content.splitlines(True)\n', '    data = content.replace("\\r\\n", "\\n").splitlines(True)\n', "R17f"),
     Seed("import_from_csv keeps line ends by keyword", "neutral", _T, '    data = content.splitlines(True)\n', '    text = content\n    data = text.splitlines(keepends=True)\n'),
